@@ -129,6 +129,22 @@ Proof.
   destruct (gaps_go_sound c e stop Ha Hw g Hg) as [A _]. unfold nonempty. lia.
 Qed.
 
+(* consecutive reported gaps are more than eps apart: a piece of c, longer than eps, lies between them *)
+Lemma gaps_go_separated c : forall e stop,
+  apart c -> within e stop c -> separated eps 0 (gaps_go eps e stop c).
+Proof.
+  induction c as [|s r IH]; intros e stop Ha Hw.
+  - rewrite gaps_go_nil_eps. destruct (nonempty eps (e, stop)); exact I.
+  - rewrite gaps_go_cons_eps.
+    pose proof (IH (en s) stop (apart_tail s r Ha) (within_tail_eps e stop s r Ha Hw)) as IHs.
+    destruct (nonempty eps (e, st s)) eqn:E; [|exact IHs].
+    destruct (gaps_go eps (en s) stop r) as [|g rest] eqn:Eg; [exact I|].
+    split; [|exact IHs].
+    assert (Ig : In g (gaps_go eps (en s) stop r)) by (rewrite Eg; now left).
+    destruct (gaps_go_sound r (en s) stop (apart_tail s r Ha) (within_tail_eps e stop s r Ha Hw) g Ig) as [_ [B _]].
+    pose proof (apart_head s r Ha). rewrite th0. pairs. lia.
+Qed.
+
 (* ---------- gaps of a timeline within a Segment support ---------- *)
 Variable t : list seg.
 Hypothesis Ht : wf eps t.
@@ -233,6 +249,23 @@ Proof.
     unfold nonempty. lia.
 Qed.
 
+(* the gaps within a Segment support are a fixed point of support(): they are their own regions *)
+Theorem gaps_segment_apart x : apart (gaps eps t (Some (SupSeg x))).
+Proof.
+  unfold gaps, gaps_iter. rewrite gaps_seg_is_timeline. unfold gaps_seg. fold (merged_crop x). split.
+  - apply gaps_go_separated; [apply merged_crop_apart | apply merged_crop_within].
+  - rewrite Forall_forall. intros g Hg.
+    destruct (gaps_go_sound (merged_crop x) (st x) (en x) (merged_crop_apart x) (merged_crop_within x) g Hg) as [A _].
+    unfold ne, nonempty. lia.
+Qed.
+Theorem gaps_segment_regions x :
+  norm_support eps (SupTl (gaps eps t (Some (SupSeg x)))) = gaps eps t (Some (SupSeg x)).
+Proof.
+  simpl. destruct (gaps_segment_apart x) as [A B].
+  rewrite (support_is_support_iter eps 0 Heps) by apply wf_tl_of.
+  now apply support_iter_fixed.
+Qed.
+
 (* covers(other), any precision: no reported gap of the timeline within other's extent intersects a member of other *)
 Theorem covers_eps_spec o : wf eps o ->
   (covers eps t o = true <->
@@ -255,6 +288,66 @@ Lemma gaps_default_eps : gaps eps t None = gaps eps t (Some (SupSeg (extent_l t)
 Proof. reflexivity. Qed.
 
 End GapsEps.
+
+(* ---------- extrude, every precision: crop on the reported gaps of `removed` within the extent, loose / strict swapped ---------- *)
+Section ExtrudeEps.
+Variable eps : Z.
+Hypothesis Heps : 0 <= eps.
+Variable t : list seg.
+Hypothesis Ht : wf eps t.
+Hypothesis Hne : t <> [].
+Variable R : sup.
+Hypothesis HR : match R with SupSeg _ => True | SupTl l => wf eps l end.
+
+Definition removed_of : list seg := match R with SupSeg x => tl_of eps [x] | SupTl l => l end.
+(* what is left of the extent once `removed` is taken out, as the library sees it *)
+Definition kept_regions : list seg := gaps eps removed_of (Some (SupSeg (extent_l t))).
+
+Lemma removed_of_wf : wf eps removed_of.
+Proof. unfold removed_of. destruct R; [apply wf_tl_of | exact HR]. Qed.
+
+Lemma extent_nonempty : nonempty eps (extent_l t) = true.
+Proof.
+  destruct t as [|s r]; [contradiction|]. destruct Ht as [_ F]. inversion F as [|? ? Hs _]; subst.
+  unfold extent_l. destruct (max_end_ge r (en s)) as [M _]. unfold nonempty in *. pairs. lia.
+Qed.
+
+Lemma extrude_is_crop m : extrude eps t R m = crop eps t (SupTl kept_regions) (swap_mode m).
+Proof.
+  unfold extrude. fold removed_of. f_equal. f_equal. unfold kept_regions, gaps, gaps_iter.
+  pose proof (norm_support_seg eps Heps (extent_l t) extent_nonempty) as N. simpl in N.
+  rewrite extent_nonempty in N. rewrite N. simpl. now rewrite app_nil_r.
+Qed.
+
+Lemma kept_regions_norm : norm_support eps (SupTl kept_regions) = kept_regions.
+Proof. apply (gaps_segment_regions eps Heps removed_of removed_of_wf). Qed.
+
+(* intersection mode: exactly the non-empty pieces member & kept region *)
+Theorem extrude_inter_eps y :
+  In y (extrude eps t R Inter) <->
+  exists x g, In x t /\ In g kept_regions /\ y = sand x g /\ nonempty eps y = true.
+Proof.
+  rewrite extrude_is_crop. simpl swap_mode. rewrite (crop_inter_spec eps Heps t Ht), kept_regions_norm. reflexivity.
+Qed.
+(* loose mode keeps exactly the members lying inside one kept region (nothing of them is removed) *)
+Theorem extrude_loose_eps x :
+  In x (extrude eps t R Loose) <-> In x t /\ exists g, In g kept_regions /\ sin g x = true.
+Proof.
+  rewrite extrude_is_crop. simpl swap_mode. rewrite (crop_strict_spec eps Heps t Ht), kept_regions_norm. reflexivity.
+Qed.
+(* strict mode keeps exactly the members that intersect a kept region (something of them is left) *)
+Theorem extrude_strict_eps x :
+  In x (extrude eps t R Strict) <-> In x t /\ exists g, In g kept_regions /\ intersects eps x g = true.
+Proof.
+  rewrite extrude_is_crop. simpl swap_mode. rewrite (crop_loose_spec eps Heps t Ht), kept_regions_norm. reflexivity.
+Qed.
+(* and the kept regions are what C06_eps_gaps_* describe: longer than eps, inside the extent, disjoint from the
+   merged `removed` *)
+Theorem kept_regions_sound g : In g kept_regions ->
+  en g - st g > eps /\ st (extent_l t) <= st g /\ en g <= en (extent_l t) /\
+  (forall s, In s (merged_crop eps removed_of (extent_l t)) -> en g <= st s \/ en s <= st g).
+Proof. apply (gaps_segment_sound eps Heps removed_of removed_of_wf). Qed.
+End ExtrudeEps.
 
 (* at eps = 0 a sliver is empty: the partition of GapsP *)
 Lemma no_sliver_at_zero e stop c k : ~ sliver 0 e stop c k.
